@@ -97,6 +97,34 @@ func (p *pipeline) update(groups map[string][]*targetgroup.Group) error {
 	}
 }
 
+// burst sends several discovery updates back to back (no waiting for the explorer in between) and
+// waits until all of them have reached the explorer.
+func (p *pipeline) burst(updates []map[string][]*targetgroup.Group) error {
+	p.mu.Lock()
+	before := p.forwarded
+	p.mu.Unlock()
+	for _, u := range updates {
+		select {
+		case p.sdCh <- u:
+		case <-time.After(60 * time.Second):
+			return fmt.Errorf("discovery did not accept the update within 60 s")
+		}
+	}
+	deadline := time.Now().Add(60 * time.Second)
+	for {
+		p.mu.Lock()
+		n := p.forwarded
+		p.mu.Unlock()
+		if n >= before+len(updates) {
+			return nil
+		}
+		if time.Now().After(deadline) {
+			return fmt.Errorf("%d of %d updates were forwarded to the explorer within 60 s", n-before, len(updates))
+		}
+		time.Sleep(200 * time.Microsecond)
+	}
+}
+
 func group(source string, targets []map[string]string) *targetgroup.Group {
 	g := &targetgroup.Group{Source: source}
 	for _, t := range targets {
